@@ -55,7 +55,13 @@ func normInt(t types.Type, v int64) int64 {
 	return v
 }
 
-func foldFrom(fn *ssa.Function, b *ssa.BasicBlock, idx int, env map[ssa.Value]int64, depth int) foldOutcome {
+// foldCapture, when non-nil, receives the bindings at the point where a top-level fold stops.
+var foldCapture func(env map[ssa.Value]int64)
+
+func foldFrom(fn *ssa.Function, b *ssa.BasicBlock, idx int, env map[ssa.Value]int64, depth int) (out foldOutcome) {
+	if depth == 0 && foldCapture != nil {
+		defer func() { foldCapture(env) }()
+	}
 	get := func(v ssa.Value) (int64, bool) {
 		if k, ok := env[v]; ok {
 			return k, true
